@@ -140,7 +140,7 @@ theorem kin_step (ho : env.o = Ops.rat) {us us' : List (PUnit ℚ)} {a : Nat} {p
     | snap t0 d x =>
       have : t0 = t := hev
       subst this
-      refine ⟨a, _, v, t0, hk.step_snap hL t0 d x hadm, hv, ht, le_refl _, fun _ => rfl, fun hq => ?_⟩
+      refine ⟨a, _, v, t0, hk.step_snap hL t0 d x hadm.1, hv, ht, le_refl _, fun _ => rfl, fun hq => ?_⟩
       rcases hq with rfl | rfl <;> simp [allowedEv] at hal
     | lift t0 b =>
       have : t0 = t := hev
